@@ -288,6 +288,48 @@ theorem not_rfc8259_line_is_default (o : Oracles) (d : TableDef) (lo : LineOracl
     | cons s inner => cases s <;> rfl
   rw [this]
 
+/-- `noCoercion .real` of a number node is the number's REAL (`as_f64`) -/
+theorem real_of_number (n : JNum) (b : Nat) (h : (Json.num n).asF64 = some b) : noCoercion .real (.num n) = .real b := by
+  cases n <;> (simp only [Json.asF64, Option.some.injEq] at h; subst h; rfl)
+
+theorem applyTrim_real (c : Column) (b : Nat) : applyTrim c (.real b) = .real b := by
+  unfold applyTrim; split <;> rfl
+
+/-- **json_real_is_nearest.** A REAL column fed from a JSON number holds THE nearest REAL to the decimal number the
+RFC 8259 grammar gives the number's text. Precisely: if the line has a document and the column's path leads to a number in
+it, then the bytes of the line are the UTF-8 of a `JSON-text` (`JsonTextD cs l.erase`), the number is one of the
+text's `number` literals `lex` whose denotation by the grammar is the decimal `dec = mant · 10^exp`
+(`JsonGrammar.numValue`, the executable form of `NumD`), and the column's value is the REAL with the literal's sign whose
+magnitude `r = decToF64 false |mant| exp` is finite and at least as close to `|mant| · 10^exp` as every REAL `y`
+(distances in units of 2^-1074 over the common denominator, `DecFloat.decToF64_nearest`; a tie goes to the even
+mantissa, `DecFloat.decToF64_tie_even`). Since /repo 265d413 (serde_json `float_roundtrip`); before it the value could
+be one unit in the last place off (finding D66). -/
+theorem json_real_is_nearest (o : Oracles) (d : TableDef) (lo : LineOracle) (c : Column) (a : JsonAccess)
+    (hj : d.anyJson = true) (hp : c.parsing = .json a) (ht : c.type = .real) (hc : c.options.convert = false)
+    (j : Json) (n : JNum) (hdoc : JsonDoc.docOfLine lo.line = some j) (hv : followPath a.steps j = some (.num n)) :
+    ∃ (cs : List Char) (l : JsonDoc.LVal) (lex : List Char) (dec : JsonGrammar.Dec),
+      Utf8.decode lo.line = some cs ∧ JsonGrammar.JsonTextD cs l.erase ∧ lex ∈ l.lexemes ∧
+      JsonGrammar.numValue lex = some dec ∧
+      columnValue o c (ParsingInput.new d (JsonDoc.withDoc lo)) = .real (JsonDoc.realOfDec (JsonDoc.lexNeg lex) dec) ∧
+      JsonDoc.realOfDec (JsonDoc.lexNeg lex) dec % 2 ^ 63 = DecFloat.decToF64 false dec.mant.natAbs dec.exp ∧
+      F64.isFinite (DecFloat.decToF64 false dec.mant.natAbs dec.exp) = true ∧
+      ∀ y, DecFloat.adist (DecFloat.numOf dec.mant.natAbs dec.exp * DecFloat.unitScale)
+              (F64.umag (DecFloat.decToF64 false dec.mant.natAbs dec.exp) * DecFloat.denOf dec.exp) ≤
+           DecFloat.adist (DecFloat.numOf dec.mant.natAbs dec.exp * DecFloat.unitScale) (F64.umag y * DecFloat.denOf dec.exp) := by
+  obtain ⟨cs, l, h1, h2, _, h4⟩ := JsonDoc.docOfLine_rfc8259 lo.line j hdoc
+  have hn : n ∈ JsonDoc.nums j := JsonDoc.nums_followPath a.steps j (.num n) hv n (by simp [JsonDoc.nums])
+  obtain ⟨lex, hl, hs⟩ := JsonDoc.toJson_nums l j h4 n hn
+  obtain ⟨dec, hd, hf, hfin⟩ := JsonDoc.serdeNumber_spec lex n hs
+  have hmag := JsonDoc.realOfDec_mag (JsonDoc.lexNeg lex) dec
+  have hne : DecFloat.decToF64 false dec.mant.natAbs dec.exp ≠ DecFloat.infBits := by rw [← hmag]; exact hfin
+  have near := fun y => DecFloat.decToF64_nearest dec.mant.natAbs dec.exp y hne
+  refine ⟨cs, l, lex, dec, h1, h2, hl, hd, ?_, hmag, (near 0).1, fun y => (near y).2⟩
+  rw [json_column_from_text_spec o d lo c a hj hp, hdoc]
+  simp only [Option.getD_some, hv, hc, ht]
+  rw [real_of_number n _ hf]
+  simp only [Bool.false_eq_true, if_false]
+  rw [applyTrim_real]
+
 /-! ### non-vacuity -/
 
 /-- `{"a": {"b": [10, "x"]}, "n": 18446744073709551616}` as serde_json presents it -/
@@ -324,5 +366,11 @@ example : ((JsonDoc.docOfLine exLine2).bind (followPath [.field [97], .field [98
 example : ((JsonDoc.docOfLine exLine2).bind (followPath [.field [97], .field [98], .index 2])).bind Json.asF64 = some 0x8000000000000000 := by decide +kernel
 example : ((JsonDoc.docOfLine exLine2).bind (followPath [.field [97], .field [98], .index 3])).bind Json.asF64 = some 0x43f0000000000000 := by decide +kernel   -- above `u64::MAX`: a float
 example : JsonDoc.docOfLine [0x7b, 0xff, 0x7d] = none := by decide +kernel           -- not UTF-8
+
+/-- the two literals of finding D66: the JSON REAL is now `f64::from_str` of the literal (before /repo 265d413 serde_json
+answered `…6d` and `0x0010000000000000`) -/
+example : ((JsonDoc.docOfLine ("{\"x\":239.21e-27}".toUTF8.toList.map (·.toNat))).bind (followPath [.field [120]])).bind Json.asF64
+    = some 0x3ad2820acce1ed6c := by decide +kernel
+example : (JsonDoc.docOfLine ("2.2250738585072011e-308".toUTF8.toList.map (·.toNat))).bind Json.asF64 = some 0x000fffffffffffff := by decide +kernel
 
 end Sqlgrep.Props.C02
